@@ -10,8 +10,9 @@ byte-identical text: `write(load(write(load t))) = write(load t)`, and `load(wri
 bookkeeping."
 
 Property statements only (proofs in `Lemmas/TreeRoundTrip.lean` and `Lemmas/RT/*`). Models: `Model/Tree.lean`
-(`parseFile`, `writeFile`; `addGroup` mirrors the writer AFTER the `fix:` commit that starts a new line behind a `//`
-comment), `Model/Lex.lean` (`tokenize`), `Model/Scalars.lean`.
+(`parseFile`, `writeFile`; `addGroup` mirrors the writer AFTER the two `fix:` commits that start a new line behind a `//`
+comment: for the next item of the group, and for the `/end` of a block whose text ends in a `//` comment),
+`Model/Lex.lean` (`tokenize`), `Model/Scalars.lean`.
 
 ## What is proved
 
@@ -46,8 +47,15 @@ as the counterexamples show (each is a theorem here or a confirmed finding):
   hypothesis `InOrder` for the `LayoutEq` conclusion.
 * line comment + position restriction (new finding, fixed in the writer by the `fix:` commit mirrored here) and
   line comment + element dropped by a non-strict recovery: before the fix the next element was swallowed by the comment.
-  Still a hypothesis after the fix (`StreamLex`): a `//` comment that is the LAST item of a block needs `end_offset ≥ 1`
-  of the enclosing `/end` (violated only when something between them was dropped by a recovery).
+  After the second fix (`ends_in_line_comment`, exact since the third: a scan of the whole text of the block's content;
+  the `/end` of a block whose text ends in a `//` comment is written on a new line) the hypothesis "a `//` comment that
+  is the LAST item of a block needs `end_offset ≥ 1` of the enclosing `/end`" is GONE (`OT.lexW` has no clause about
+  offsets any more): on the text of lexable parameters and items `ends_in_line_comment` is true iff the last item is a
+  `//` comment (`ends_in_line_comment_exact`, proved against the token shapes the tokenizer model reads back), so the
+  `/end` is written behind a line break (`end_behind_line_comment`), at every position of the comment. What is left:
+  the last ROOT item must not be a line comment (`written_stream_lexable`; the root has no `/end`, and with the shipped
+  grammar no comments), and `OT.fixL` — the offsets the writer uses — now also bumps end offsets (`OT.fixEo`), which
+  the hypothesis `OT.fixL false items = items` of the `LayoutEq` conclusion covers.
 * sequences: an identifier sequence ends at the first token that is not an identifier or is a stop tag; if a recovery
   drops what followed it on first load, a following keyword tag is swallowed by the sequence on reload (`SeqStops`).
 * `1e999` → `inf` (float text that is not a number token): hypothesis `flOf s = some s` and `NumText`.
@@ -84,6 +92,18 @@ example (arm : Nat) (tag : List Char) (blk : Bool) (ty so eo : Nat) (fields : Li
 example (alc : Bool) (text : List Char) (off : Nat) (rest : List OT) :
     OT.fixL alc (.cmt text off :: rest) = .cmt text (bumpOff alc off) :: OT.fixL (isLineCommentText text) rest := by
   simp [OT.fixL]
+
+/-- … and the `/end` of a block whose content (as written) ends in a `//` comment for the writer's
+    `ends_in_line_comment` gets offset 1 if its recorded offset is 0; `OT.endsLC` is `endsInLineComment` of the text of
+    the content at any indent level (`endsLC_is_ends_in_line_comment`); for lexable content it says whether the last
+    item is a `//` comment (`ends_in_line_comment_exact`) -/
+example (alc : Bool) (arm : Nat) (tag : List Char) (blk : Bool) (ty so eo : Nat) (fields : List Val) (items rest : List OT) :
+    OT.fixL alc (.node arm tag blk ty so eo fields items :: rest) =
+      .node arm tag blk ty (bumpOff alc so) (OT.fixEo blk eo fields (OT.fixL false items)) fields (OT.fixL false items) ::
+        OT.fixL false rest := by
+  simp [OT.fixL]
+example (blk : Bool) (eo : Nat) (fields : List Val) (items : List OT) :
+    OT.fixEo blk eo fields items = if blk = true ∧ eo = 0 ∧ OT.endsLC fields items = true then 1 else eo := rfl
 
 /-- equality up to layout bookkeeping: everything except `Info.line`, `Info.uid`, `Cmt.line`, `Cmt.uid` and the `Info`
     of struct values inside parameter lists (`normField`) -/
@@ -191,12 +211,12 @@ theorem lexer_reads_written_text (lx : LexEnv) (ws : List WTok) (h : StreamLex n
 example : StreamLex none Sample.stream := by
   have := Sample.lexable; rwa [Sample.fix_items, Sample.toksL_items] at this
 
-/-- **fragment: lexability from conditions on the values** (after the `fix:` commit): if tags, identifier and enum values
-    are `IdentText`, no block tag is `A2ML`, float texts are `NumText`, comments are `CommentText`, and a line comment that
-    is the last item of a block has an `/end` with `end_offset ≥ 1` (`OT.lexWL`), and the last root item is not a line
-    comment, then the stream the writer emits is lexable. Inside a tagged part NOTHING is required of the offsets
-    behind a line comment any more: the writer bumps them (`OT.fixL`). Printed integers and escaped strings are always
-    lexable (`printed_integer_is_number_token`, `strBody_escape`). -/
+/-- **fragment: lexability from conditions on the values** (after the `fix:` commits): if tags, identifier and enum values
+    are `IdentText`, no block tag is `A2ML`, float texts are `NumText`, comments are `CommentText`, keywords have no
+    sub-elements (`OT.lexWL`, restated below), and the last root item is not a line comment, then the stream the writer
+    emits is lexable. NOTHING is required of the offsets behind a line comment any more: the writer bumps them, for
+    the next item and for the `/end` of the enclosing block (`OT.fixL`). Printed integers and escaped strings are
+    always lexable (`printed_integer_is_number_token`, `strBody_escape`). -/
 theorem written_stream_lexable (items : List OT) (h : OT.lexWL items)
     (hlast : ∀ text off, items.getLast? = some (.cmt text off) → isLineCmt text = false) :
     StreamLex none (OT.toksL 0 (OT.fixL false items)) :=
@@ -204,6 +224,64 @@ theorem written_stream_lexable (items : List OT) (h : OT.lexWL items)
 
 example : OT.lexWL Sample.items ∧ ∀ text off, Sample.items.getLast? = some (.cmt text off) → isLineCmt text = false :=
   ⟨Sample.lexW_items, by intro t o h; simp [Sample.items, Sample.projO] at h⟩
+
+/-- the condition of `OT.lexWL` on an element (no clause about offsets) -/
+example (arm : Nat) (tag : List Char) (blk : Bool) (ty so eo : Nat) (fields : List Val) (items : List OT) :
+    OT.lexW (.node arm tag blk ty so eo fields items) =
+      (IdentText tag ∧ (blk = true → tag ≠ "A2ML".toList) ∧ (∀ f ∈ fields, FieldLex f) ∧ OT.lexWL items ∧
+        (blk = false → items = [])) := by
+  simp [OT.lexW]
+
+/-- `OT.endsLC` is what the writer computes: `ends_in_line_comment` of the text of the block's content, written at any
+    indent level (the indentation does not matter) -/
+theorem endsLC_is_ends_in_line_comment (indent : Nat) (fields : List Val) (items : List OT) :
+    endsInLineComment (renderToks (fieldsToks indent fields ++ OT.toksL indent items)) = OT.endsLC fields items :=
+  endsInLineComment_body indent fields items
+
+/-- is the last item a `//` comment? -/
+example (items : List OT) : OT.lastLC items =
+    (match items.getLast? with
+      | some (.cmt text _) => isLineCmt text
+      | _ => false) := rfl
+
+/-- **`ends_in_line_comment` is exact** on the content of a block as the writer writes it (lexable parameters and
+    items): it is true iff the last item is a `//` comment. Proof: its scanner is outside of strings and comments behind
+    every token the tokenizer model reads back, and inside the comment behind a `//` comment (`scan_stream`) -/
+theorem ends_in_line_comment_exact (fields : List Val) (items : List OT) (hf : ∀ f ∈ fields, FieldLex f)
+    (hw : OT.lexWL items) : OT.endsLC fields (OT.fixL false items) = OT.lastLC items :=
+  endsLC_fixL fields items hf hw
+
+/-- the scanner of `ends_in_line_comment` on the text of any lexable stream -/
+theorem ends_in_line_comment_on_stream (ws : List WTok) (prev : Option WTok) (h : StreamLex prev ws) :
+    endsInLineComment (renderToks ws) = (match ws.getLast? with | some w => w.isLC | none => false) :=
+  endsInLineComment_stream ws prev h
+example (w : WTok) : w.isLC = (w.ty == 6 && isLineCmt w.text) := rfl
+
+/-- **after the second and third `fix:` commit**: a `//` comment that is the last item of a block — on a line of its
+    own or behind other tokens — is seen by `ends_in_line_comment`, so the `/end` is written with an offset ≥ 1 whatever
+    its recorded offset is; if the last item is not a `//` comment, the recorded offset is used -/
+theorem end_behind_line_comment (eo : Nat) (fields : List Val) (items : List OT) (hf : ∀ f ∈ fields, FieldLex f)
+    (hw : OT.lexWL items) :
+    (OT.lastLC items = true → 1 ≤ OT.fixEo true eo fields (OT.fixL false items)) ∧
+    (OT.lastLC items = false → ∀ blk, OT.fixEo blk eo fields (OT.fixL false items) = eo) :=
+  ⟨fixEo_pos_of_last_cmt eo fields items hf hw, fun h blk => fixEo_of_not_last_cmt blk eo fields items hf hw h⟩
+
+def seenCmt1 : List Char := "/* a\n \" */".toList
+def seenCmt2 : List Char := " // c".toList
+
+/-- the input that the last-line version of `ends_in_line_comment` missed (two comment items, the `//` comment on the
+    line on which a multi-line block comment with a `"` ends; `/end` recorded with offset 0): the exact scan sees the
+    comment, the `/end` is written on a new line -/
+theorem ends_in_line_comment_sees :
+    OT.endsLC [] [.cmt seenCmt1 1, .cmt seenCmt2 0] = true ∧
+    OT.fixL false [.node 0 ['B'] true 0 0 0 [] [.cmt seenCmt1 1, .cmt seenCmt2 0]] =
+      [.node 0 ['B'] true 0 0 1 [] [.cmt seenCmt1 1, .cmt seenCmt2 0]] ∧
+    renderToks (OT.toksL 0 [.node 0 ['B'] true 0 0 1 [] [.cmt seenCmt1 1, .cmt seenCmt2 0]]) =
+      " /begin B\n/* a\n \" */ // c\n/end B".toList := by
+  have h : OT.endsLC [] [.cmt seenCmt1 1, .cmt seenCmt2 0] = true := by decide +kernel
+  have h1 : isLineCommentText seenCmt1 = false := by decide +kernel
+  refine ⟨h, ?_, by decide +kernel⟩
+  simp [OT.fixL, OT.fixEo, bumpOff, h, h1]
 
 /-- every integer the writer prints (any type, value, notation) is a text the tokenizer reads as one number token -/
 theorem printed_integer_is_number_token (t : Sc.IntTy) (v : Int) (hex : Bool) : NumText (Sc.printInt t v hex) :=
